@@ -46,6 +46,8 @@ Record interval := { ifrom : option Z; ito : option Z }.
 Inductive ptype := GE | LE | GT | LT.
 Definition ptype_eqb (a b : ptype) : bool := match a, b with GE, GE | LE, LE | GT, GT | LT, LT => true | _, _ => false end.
 Record attr_info := { ai_name : option string; ai_names : option (list string); ai_restr : option query; ai_nr : option interval }.
+Definition names_of (ai : attr_info) : list string :=
+  opt_list (ai_name ai) ++ match ai_names ai with Some ns => ns | None => [] end.
 Record pred_info := { pi_name : string; pi_type : ptype; pi_value : Z; pi_restr : option query; pi_nr : option interval }.
 Record request := { rq_nonce : N; rq_attrs : list (string * attr_info); rq_preds : list (string * pred_info); rq_nr : option interval }.
 
